@@ -25,6 +25,9 @@ SFwarm == { SFfirstpub, SFvalid, SFprewrap, SFmidwrap, SFotherver }
 SFra == { SFvalid, SFmidwrap }
 SFone == { SFvalid }
 
+\* state constraint of the wrap configuration: no publication while a snapshot() call is in progress
+NoPubDuringCall == \A r \in Readers : InCall(r) => wpc = "idle"
+
 R1 == {"r1"}
 R2 == {"r1", "r2"}
 R3 == {"r1", "r2", "r3"}
